@@ -517,6 +517,12 @@ def parse (text : List Char) : Except ErrKind FV :=
     | some g => fromGroups g
     | none => .error .value
 
+/-- `FractionValue.MatchFractionPart(text)`: only the partial expression may match -/
+def matchFractionPart (text : List Char) : Except ErrKind Unit :=
+  match matchPartial (stripSpaces text) with
+  | some _ => .ok ()
+  | none => .error .value
+
 /-! ### `CreateFromFloat` -/
 
 /-- least `j ≤ fuel` with `q · 10^j` an integer -/
